@@ -13,21 +13,43 @@ from vlib import Broken, VERIF, REPO, read_ndjson, parallel, tlc_vh_lines
 SPEC = "c19_interceptor"
 EXEC = os.path.join(VERIF, "py", "c19_exec.py")
 
-CORE = [{"ev": "ask"}, {"ev": "adv", "d": 1},
-        {"ev": "call", "read": True, "out": "ok"},
-        {"ev": "call", "read": True, "out": "gwerr", "kind": "proxy"},
+# Event alphabets.  A gateway-side failure reaches FailSafe either as an exception of a type the hooks registered (kinds "conn",
+# "gai") or as an error *response* through validate_headers: kind "proxy/<container>/<header name as sent>/<code>" with the
+# container the hook passes (requests: case-insensitive dict, aiohttp: CI multidict, tornado: normalising HTTPHeaders, dict).
+def alphabet(adv, gw_read, gw_noread=None, ok_kind="proxy/requests", extra=()):
+    a = [{"ev": "ask"}] + [{"ev": "adv", "d": d} for d in adv] + [
+        {"ev": "call", "read": True, "out": "ok", "kind": ok_kind},
+        {"ev": "call", "read": True, "out": "gwerr", "kind": gw_read},
         {"ev": "call", "read": True, "out": "appexc", "kind": "value"}]
-# reads of the breaker are events like any other: outcomes reported without a read (legs already in flight)
-CORE7 = CORE + [{"ev": "call", "read": False, "out": "gwerr", "kind": "proxy"},
-                {"ev": "call", "read": False, "out": "ok"}]
-EXT = CORE + [{"ev": "call", "read": True, "out": "skip"},
-              {"ev": "call", "read": True, "out": "gwerr", "kind": "conn"},
-              {"ev": "call", "read": True, "out": "appexc", "kind": "io"},
-              {"ev": "call", "read": True, "out": "appexc", "kind": "base"},
-              {"ev": "call", "read": False, "out": "gwerr", "kind": "gai"},
-              {"ev": "call", "read": False, "out": "ok"},
-              {"ev": "call", "read": False, "out": "appexc", "kind": "value"}]
+    if gw_noread:
+        a += [{"ev": "call", "read": False, "out": "gwerr", "kind": gw_noread},
+              {"ev": "call", "read": False, "out": "ok", "kind": ok_kind}]
+    return a + list(extra)
+
+
+CORE = alphabet([1], "proxy/requests/X-Lunar-Error/2")
+# reads of the breaker are events like any other: outcomes reported without a read (legs already in flight);
+# clock in 1/8 s starting at a fractional instant
+CORE7 = alphabet([8], "proxy/tornado/x-lunar-error/3", "proxy/aiohttp/X-LUNAR-ERROR/9", ok_kind="proxy/tornado")
+EXT = alphabet([8], "proxy/dict/x-lunar-error/2", ok_kind="proxy/aiohttp", extra=[
+    {"ev": "call", "read": True, "out": "skip"},
+    {"ev": "call", "read": True, "out": "gwerr", "kind": "conn"},
+    {"ev": "call", "read": True, "out": "appexc", "kind": "io"},
+    {"ev": "call", "read": True, "out": "appexc", "kind": "base"},
+    {"ev": "call", "read": False, "out": "gwerr", "kind": "gai"},
+    {"ev": "call", "read": False, "out": "ok", "kind": "proxy/dict"},
+    {"ev": "call", "read": False, "out": "appexc", "kind": "value"}])
+# sub-second probing of the cool-down: opened at a fractional instant, asked just before / at its end (7/8 s and 1/8 s steps)
+FRAC = alphabet([7, 1], "proxy/aiohttp/X-Lunar-Error/5", ok_kind="proxy/requests")[:-1]
 CONFIGS = [{"N": n, "C": c} for n in (1, 2, 3) for c in (1, 2, 3)]
+GW_KINDS = ["conn", "gai"] + ["proxy/%s/%s/%s" % (c, n, k) for c in ("requests", "aiohttp", "tornado") for n, k in
+                              (("x-lunar-error", "2"), ("X-Lunar-Error", "4"), ("X-LUNAR-ERROR", "1"), ("x-Lunar-error", "77"))] + \
+           ["proxy/dict/x-lunar-error/3"]
+OK_KINDS = ["proxy/requests", "proxy/aiohttp", "proxy/tornado", "proxy/dict"]
+
+
+def timed(cfgs, unit, phase):
+    return [dict(c, unit=unit, phase=phase) for c in cfgs]
 
 
 # ----------------------------------------------------------------------------------------------- plumbing
@@ -77,9 +99,10 @@ def path_to(nodes, parent, nid):
 
 
 def script_of(path):
-    cfg = {"N": path[0]["N"], "C": path[0]["C"]}
-    if path[0].get("default"):
-        cfg = {"default": True}
+    r = path[0]
+    cfg = {"N": r["N"], "C": r.get("Csec", r["C"]), "unit": r.get("unit", 1), "phase": r.get("phase", 0)}
+    if r.get("default"):
+        cfg = {"default": True, "unit": r.get("unit", 1), "phase": r.get("phase", 0)}
     evs = []
     for e in path[1:]:
         s = {"ev": e["ev"]}
@@ -183,7 +206,6 @@ def part_model(ctx):
         d = workdir(ctx, "mc-" + dirtag)
         return ctx.tlc(d, module, cfg, workers=4 if not T else 8, timeout=1500, label=label, count=False)
     jobs = [("MC_C19", "MC_small.cfg" if not T else "MC_large.cfg", "I=>P (subset construction)", "main"),
-            ("FailSafeP", "MC_P.cfg", "P satisfies its own reading of the statement (Trip/Cool/Propagate as action properties)", "p"),
             ("MC_C19", "MC_benign.cfg", "benign variant (counter cleared on recovery) must refine P", "benign"),
             ("MC_C19", "MC_strict.cfg", "non-vacuity: strict cool-down test must be refuted", "strict"),
             ("MC_C19", "MC_noreset.cfg", "non-vacuity: success not clearing the counter must be refuted", "noreset"),
@@ -191,11 +213,12 @@ def part_model(ctx):
             ("MC_C19", "MC_stale.cfg", "non-vacuity: a failure after the period (nobody asked yet) not opening the breaker must be refuted", "stale"),
             ("MC_C19Filter", "MC_filter.cfg", "filter: I=>P over the whole input space + case generation", "f"),
             ("MC_C19Filter", "MC_filter_v6.cfg", "non-vacuity: raising on IPv6 literals must be refuted", "fv6"),
-            ("MC_C19Filter", "MC_filter_unicode.cfg", "non-vacuity: resolver UnicodeError must be refuted", "funi"),
             ("MC_C19Filter", "MC_filter_blockinv.cfg", "non-vacuity: inverted block-list test must be refuted", "finv"),
-            ("MC_C19Filter", "MC_filter_case.cfg", "non-vacuity: case-sensitive list matching must be refuted", "fcase"),
             ("MC_C19Filter", "MC_filter_strip.cfg", "non-vacuity: items validated without their blanks but compared with them must be refuted", "fstrip")]
     if T:
+        jobs += [("FailSafeP", "MC_P.cfg", "P satisfies its own reading of the statement (Trip/Cool/Propagate as action properties)", "p"),
+                 ("MC_C19Filter", "MC_filter_unicode.cfg", "non-vacuity: resolver UnicodeError must be refuted", "funi"),
+                 ("MC_C19Filter", "MC_filter_case.cfg", "non-vacuity: case-sensitive list matching must be refuted", "fcase")]
         jobs += [("MC_C19", "MC_%s.cfg" % w, "witness %s (expected to be violated)" % w, w) for w in
                  ("W_NeverOpen", "W_NeverPermittedOnly", "W_NeverRecovered", "W_NeverPropagated", "W_NeverLateWhileOpen")]
     res = parallel(mc, jobs, n=4 if not T else 3)
@@ -216,7 +239,7 @@ def part_model(ctx):
     # the filter input space written by TLC (JsonSerialize) in the directory of the MC_filter run
     space = json.load(open(os.path.join(workdir(ctx, "mc-f"), "filter_space.json")))
     import re
-    m = re.search(r'<<"FILTER-CASES", (\d+), (\d+)>>', res[7].out)
+    m = re.search(r'<<"FILTER-CASES", (\d+), (\d+)>>', res[6].out)
     ctx.cov["filter_space_cases"] = int(m.group(1)) if m else 0
     return space
 
@@ -224,19 +247,23 @@ def part_model(ctx):
 def part_trees(ctx):
     T = ctx.thorough
     jobs = []
+    small = [c for c in CONFIGS if c["N"] <= 2 and c["C"] <= 2]
     if not T:
         jobs.append(("core6", {"configs": CONFIGS, "depth": 6, "alphabet": CORE}))
-        jobs.append(("noread5", {"configs": CONFIGS, "depth": 5, "alphabet": CORE7}))
-        jobs.append(("ext4", {"configs": [c for c in CONFIGS if c["N"] <= 2 and c["C"] <= 2], "depth": 4, "alphabet": EXT}))
+        jobs.append(("noread5", {"configs": timed([c for c in CONFIGS if c["N"] <= 2], 8, 7), "depth": 5, "alphabet": CORE7}))
+        jobs.append(("ext4", {"configs": timed(small, 8, 3), "depth": 4, "alphabet": EXT}))
+        jobs.append(("frac6", {"configs": timed(small, 8, 5), "depth": 6, "alphabet": FRAC}))
     else:
         for c in CONFIGS:
             jobs.append(("core8-n%dc%d" % (c["N"], c["C"]), {"configs": [c], "depth": 8, "alphabet": CORE}))
-        jobs.append(("noread6-a", {"configs": CONFIGS[:5], "depth": 6, "alphabet": CORE7}))
-        jobs.append(("noread6-b", {"configs": CONFIGS[5:], "depth": 6, "alphabet": CORE7}))
-        small = [c for c in CONFIGS if c["N"] <= 2 and c["C"] <= 2]
-        jobs.append(("ext5-a", {"configs": small[:2], "depth": 5, "alphabet": EXT}))
-        jobs.append(("ext5-b", {"configs": small[2:], "depth": 5, "alphabet": EXT}))
-        jobs.append(("ext4", {"configs": [c for c in CONFIGS if c not in small], "depth": 4, "alphabet": EXT}))
+        jobs.append(("noread6-a", {"configs": timed(CONFIGS[:5], 8, 7), "depth": 6, "alphabet": CORE7}))
+        jobs.append(("noread6-b", {"configs": timed(CONFIGS[5:], 8, 7), "depth": 6, "alphabet": CORE7}))
+        jobs.append(("ext5-a", {"configs": timed(small[:2], 8, 3), "depth": 5, "alphabet": EXT}))
+        jobs.append(("ext5-b", {"configs": timed(small[2:], 8, 3), "depth": 5, "alphabet": EXT}))
+        jobs.append(("ext4", {"configs": timed([c for c in CONFIGS if c not in small], 8, 3), "depth": 4, "alphabet": EXT}))
+        jobs.append(("frac7", {"configs": timed(small, 8, 5), "depth": 7, "alphabet": FRAC}))
+        jobs.append(("frac6-c3", {"configs": timed([{"N": 1, "C": 3}, {"N": 3, "C": 1}], 64, 37), "depth": 6,
+                     "alphabet": alphabet([63, 1, 64], "proxy/requests/x-lunar-error/2")[:-1]}))
 
     def one(job):
         tag, spec = job
@@ -270,6 +297,10 @@ def part_trees(ctx):
 def rand_script(rng, thorough):
     cfg = rng.choice([{"default": True}] + [{"N": rng.choice([1, 2, 3, 4, 5, 7]), "C": rng.choice([1, 2, 3, 5, 10, 30])} for _ in range(4)])
     n, c = (5, 10) if cfg.get("default") else (cfg["N"], cfg["C"])
+    unit = rng.choice([1, 8, 8, 64, 1024])           # clock ticks per second: instants are fractional (dyadic) values
+    cfg["unit"], cfg["phase"] = unit, rng.randrange(unit)
+    c = c * unit                                      # the cool-down in ticks
+    frac = [1, max(1, unit // 8), max(1, unit // 2), unit - 1 if unit > 1 else 1, unit]
     evs = []
     L = rng.randint(30, 60 if not thorough else 90)
     mood = "fail"
@@ -280,7 +311,8 @@ def rand_script(rng, thorough):
             mood = rng.choice(["fail", "fail", "ok", "mixed", "wait"])
         x = rng.random()
         if mood == "wait" or x < 0.18:
-            evs.append({"ev": "adv", "d": rng.choice([1, 1, 2, c - 1 if c > 1 else 1, c, c, c + 1, 3 * c])})
+            evs.append({"ev": "adv", "d": rng.choice(frac + [c - 1 if c > 1 else 1, c - 1 if c > 1 else 1, c, c, c + 1, 3 * c,
+                                                             max(1, c - rng.choice(frac)), rng.randint(1, 2 * c)])})
             if mood == "wait" and rng.random() < 0.5:
                 mood = "mixed"
         elif x < 0.18 + pask:
@@ -294,7 +326,9 @@ def rand_script(rng, thorough):
                 out = rng.choice(["ok", "gwerr", "gwerr", "appexc", "skip"])
             e = {"ev": "call", "read": rng.random() < noread, "out": out, "kind": ""}
             if out == "gwerr":
-                e["kind"] = rng.choice(["proxy", "conn", "gai"])
+                e["kind"] = rng.choice(GW_KINDS)
+            if out == "ok":
+                e["kind"] = rng.choice(OK_KINDS)
             if out == "appexc":
                 e["kind"] = rng.choice(["value", "io", "base"])
             if out == "skip":
@@ -321,7 +355,8 @@ def part_walks(ctx):
             if e["ev"] == "adv":
                 s["d"] = e["d"]
             if e["ev"] == "call":
-                s.update(read=e["read"], out=e["out"], kind={"gwerr": "proxy", "appexc": "value"}.get(e["out"], ""))
+                kinds = {"gwerr": GW_KINDS, "ok": OK_KINDS, "appexc": ["value", "io", "base"]}.get(e["out"], [""])
+                s.update(read=e["read"], out=e["out"], kind=kinds[(len(scripts) + len(evs)) % len(kinds)])
             evs.append(s)
         scripts.append({"config": {"N": w[0]["N"], "C": w[0]["C"]}, "events": evs})
     d = ctx.sub("walks")
@@ -364,10 +399,11 @@ def part_walks(ctx):
     return os.path.join(d, "rand.ndjson")
 
 
-def decode_path(codes):
-    cfg = {"N": codes[0] // 100, "C": codes[0] % 100}
+def decode_path(codes, unit, variant):
+    cfg = {"N": codes[0] // 100, "C": (codes[0] % 100) // unit, "unit": unit, "phase": unit - 1 if unit > 1 else 0}
     evs = []
     outs = {1: "ok", 2: "gwerr", 3: "appexc", 4: "skip"}
+    kinds = {"gwerr": GW_KINDS[variant % len(GW_KINDS)], "ok": OK_KINDS[variant % len(OK_KINDS)], "appexc": "value", "skip": ""}
     for c in codes[1:]:
         if c == 1:
             evs.append({"ev": "ask"})
@@ -376,43 +412,62 @@ def decode_path(codes):
         else:
             read = c < 15
             out = outs[c - (10 if read else 15)]
-            evs.append({"ev": "call", "read": read, "out": out, "kind": {"gwerr": "proxy", "appexc": "value"}.get(out, "")})
+            evs.append({"ev": "call", "read": read, "out": out, "kind": kinds[out]})
     return {"config": cfg, "events": evs}
 
 
 def part_coverage(ctx):
     """coverage-directed generation: one history per transition of the state graph of FailSafeI (TLC, GenC19Cov), executed on the
-    real class and judged by FailSafeTrace - covers model states far beyond the depth of the exhaustive trees."""
+    real class and judged by FailSafeTrace - covers model states far beyond the depth of the exhaustive trees.  Two instances:
+    whole seconds, and a clock in 1/8 s (cool-down of 8 / 16 ticks, steps of 1/8, 7/8 and 1 s)."""
     T = ctx.thorough
     import re
-    wd = workdir(ctx, "cov")
-    cfgp = os.path.join(wd, "GenC19Cov.cfg")
-    c = open(cfgp).read()
+    base = open(os.path.join(ctx.spec_dir(SPEC), "GenC19Cov.cfg")).read()
+
+    def inst(ns, cs, maxnow, steps):
+        return base.replace("Ns = {4}", "Ns = {%s}" % ns).replace("Cs = {3}", "Cs = {%s}" % cs).replace(
+            "MaxNow = 8", "MaxNow = %d" % maxnow).replace("Steps = {1, 2}", "Steps = {%s}" % steps)
     if not T:
-        c = c.replace("Ns = {4}", "Ns = {1, 2, 3, 4}").replace("Cs = {3}", "Cs = {1, 2, 3}")
+        insts = [("sec", 1, inst("1, 2, 3, 4", "1, 2, 3", 8, "1, 2")), ("frac", 8, inst("1, 2", "8", 20, "1, 7, 8"))]
     else:
-        c = c.replace("Ns = {4}", "Ns = {1, 2, 3, 4, 5}").replace("Cs = {3}", "Cs = {1, 2, 3, 5}").replace("MaxNow = 8", "MaxNow = 12").replace(
-            "Steps = {1, 2}", "Steps = {1, 2, 3}")
-    open(cfgp, "w").write(c)
-    g = ctx.tlc(wd, "GenC19Cov", "GenC19Cov.cfg", workers=1, timeout=900, label="coverage-directed generation: one history per edge of I's state graph")
-    if not g.ok:
-        raise Broken("coverage generation failed: %r\n%s" % (g, g.out[-2000:]))
-    paths = [[int(x) for x in m.split(",")] for m in re.findall(r'^<<"VP", <<([0-9, ]+)>>>>$', g.out, re.M)]
-    if len(paths) < 1000 or len(paths) < g.generated * 0.9:
-        raise Broken("coverage generation printed %d paths for %d transitions" % (len(paths), g.generated))
-    scripts = [decode_path(p) for p in paths]
-    d = ctx.sub("cov")
-    json.dump(scripts, open(os.path.join(d, "cov.json"), "w"))
-    s = run_exec(ctx, ["trie", os.path.join(d, "cov.json"), os.path.join(d, "cov.ndjson")])
-    if s.get("nondeterministic"):
-        raise Broken("re-execution of a prefix gave a different observation (coverage): %s" % s)
-    rej, visited, lines = judge_tree(ctx, os.path.join(d, "cov.ndjson"), "cov", workers=4)
-    ctx.log("model-graph coverage: %d model states, %d transitions -> %d histories (longest %d events), %d recorded nodes, %d rejected" % (
-        g.distinct, g.generated, len(scripts), max(len(p) for p in paths) - 1, lines, len(rej)))
-    ctx.cov["evaluations"] += s["executions"]
-    ctx.cov["model_transitions_covered"] = len(scripts)
-    if not rej:
-        ctx.cov["traces_validated_against_impl"] += len(scripts)
+        insts = [("sec", 1, inst("1, 2, 3, 4, 5", "1, 2, 3, 5", 12, "1, 2, 3")), ("frac", 8, inst("1, 2, 3", "8, 16", 36, "1, 7, 8"))]
+
+    def one(it):
+        tag, unit, cfgtext = it
+        wd = workdir(ctx, "cov-" + tag)
+        open(os.path.join(wd, "GenC19Cov.cfg"), "w").write(cfgtext)
+        g = ctx.tlc(wd, "GenC19Cov", "GenC19Cov.cfg", workers=1, timeout=900, count=False)
+        if not g.ok:
+            raise Broken("coverage generation failed: %r\n%s" % (g, g.out[-2000:]))
+        paths = [[int(x) for x in m.split(",")] for m in re.findall(r'^<<"VP", <<([0-9, ]+)>>>>$', g.out, re.M)]
+        if len(paths) < 1000 or len(paths) < g.generated * 0.75:
+            raise Broken("coverage generation printed %d paths for %d transitions" % (len(paths), g.generated))
+        scripts = [decode_path(p, unit, i) for i, p in enumerate(paths)]
+        # one variant of reporting per prefix tree keeps the prefixes shared: the variant is a function of the configuration
+        for sc, p in zip(scripts, paths):
+            v = p[0]
+            for e in sc["events"]:
+                if e["ev"] == "call" and e["out"] == "gwerr":
+                    e["kind"] = GW_KINDS[v % len(GW_KINDS)]
+                elif e["ev"] == "call" and e["out"] == "ok":
+                    e["kind"] = OK_KINDS[v % len(OK_KINDS)]
+        d = ctx.sub("cov-" + tag)
+        json.dump(scripts, open(os.path.join(d, "cov.json"), "w"))
+        s = run_exec(ctx, ["trie", os.path.join(d, "cov.json"), os.path.join(d, "cov.ndjson")])
+        if s.get("nondeterministic"):
+            raise Broken("re-execution of a prefix gave a different observation (coverage): %s" % s)
+        rej, visited, lines = judge_tree(ctx, os.path.join(d, "cov.ndjson"), "cov-" + tag, workers=3)
+        return tag, g, len(scripts), max(len(p) for p in paths) - 1, lines, rej, s
+    for tag, g, n, longest, lines, rej, s in parallel(one, insts, n=2):
+        ctx.cov["tlc_runs"].append({"module": "GenC19Cov", "cfg": "GenC19Cov.cfg (%s)" % tag, "generated": g.generated, "distinct": g.distinct,
+                                    "depth": g.depth, "wall_s": round(g.wall, 1), "result": "ok",
+                                    "label": "coverage-directed generation: one history per edge of I's state graph"})
+        ctx.log("model-graph coverage (%s): %d model states, %d transitions -> %d histories (longest %d events), %d recorded nodes, %d rejected" % (
+            tag, g.distinct, g.generated, n, longest, lines, len(rej)))
+        ctx.cov["evaluations"] += s["executions"]
+        ctx.cov["model_transitions_covered"] = ctx.cov.get("model_transitions_covered", 0) + n
+        if not rej:
+            ctx.cov["traces_validated_against_impl"] += n
 
 
 def judge_filter(ctx, trace_path, tag):
@@ -535,7 +590,7 @@ def part_selftest(ctx, rand_trace, filter_trace):
     open(p, "w").write("".join(json.dumps(n, separators=(",", ":")) + "\n" for n in bad))
     r1, _, _ = validate_tree(ctx, p, "self1", workers=2)
     # (b) drop one gateway failure that preceded a trip: splice the node out of its chain
-    k2 = next(i for i, n in enumerate(nodes) if n["ev"] == "call" and n["out"] == "gwerr" and n["k"] and
+    k2 = next(i for i, n in enumerate(nodes) if n["ev"] == "call" and n["out"] == "gwerr" and n["read"] and n["ans"] and n["k"] and
               nodes[n["k"][0] - 1]["ev"] in ("ask", "call") and not nodes[n["k"][0] - 1]["ans"] and nodes[n["k"][0] - 1].get("read", True))
     bad = [dict(n) for n in nodes]
     par = next(i for i, n in enumerate(bad) if (k2 + 1) in n["k"])
